@@ -35,7 +35,7 @@ func (f *Frame) builtin(b *ssa.Builtin, cc *ssa.CallCommon, v ssa.Value, in ssa.
 			md, _ := e.mapComps(u)
 			hd := e.comp(f.st, md, e.comps[md])
 			card := e.ufCard(u)
-			e.assume(f.reach, fmt.Sprintf("(= %s (%s (select %s %s)))", n, card, hd, x))
+			e.assume(f.reach, fmt.Sprintf("(= %s (ite (= %s 0) %s (%s (select %s %s))))", n, x, e.idxLit("0"), card, hd, x))
 		case *types.Array:
 			f.setVal(v, e.idxLit(fmt.Sprint(u.Len())))
 		case *types.Pointer:
